@@ -33,9 +33,9 @@ PID = "C12"
 LEVEL = "fault_enumeration"
 ENGINE = "ctxsim"
 CHUNK = 2
-N_KINDS = 17
+N_KINDS = 18
 GEN_TAKES_INDEX = True
-N_CATALOGUE = 51
+N_CATALOGUE = 54
 REACH = ['mode:catalogue', 'mode:random', 'mode:insertion', 'fault_fired:module.body', 'fault_fired:tc.decorate', 'fault_fired:stdout.write', 'fault_fired:node.flatten', 'inserted_inside_live_context']  # counters (prefixes) that a healthy batch makes non-zero; gaps are reported in the evidence
 BUDGET = {"quick": 45, "thorough": 600}
 RULE = (
@@ -64,7 +64,7 @@ COMPONENTS = {"real": ["jaxtyping", "typeguard", "beartype", "importlib (hook op
 _DIR = None
 _ORIG_CFS = _be.cache_from_source
 KIND_NAMES = ["arr-top", "arr-ctx", "tree-top", "tree-ctx", "call-new", "call-old", "call-none", "call-dc", "decorate",
-              "decorate-gen-old", "decorate-gen-new", "pickle", "hook", "obs-failing-stdout", "tree-nested", "tree-union", "ctx-object-reentered"]
+              "decorate-gen-old", "decorate-gen-new", "pickle", "hook", "obs-failing-stdout", "tree-nested", "tree-union", "ctx-object-reentered", "tree-nested-structured-misuse"]
 
 
 def worker_init():
@@ -217,6 +217,14 @@ def _op_of_kind(kind, r, g, pref, fns):
         return [tree("arr", r.choice(("T", None)), nested=True)]
     if name == "tree-union":
         return [tree(r.choice(("union", "tuple")), r.choice(("T", None)), node_ok=False)]
+    if name == "tree-nested-structured-misuse":
+        # documented misuse: a '?' axis beneath TWO structured PyTrees is ambiguous -> AnnotationError; the application catches it
+        q = g.add_ann({"k": "arr", "dtype": "Float", "atype": "np", "dims": "?n", "toks": []})
+        inner = g.add_ann({"k": "tree", "leaf": q, "struct": "S"})
+        outer = g.add_ann({"k": "tree", "leaf": inner, "struct": "T"})
+        val = {"t": "tuple", "c": [{"t": "np", "s": [2], "d": "float32"}, {"t": "np", "s": [3], "d": "float32"}]}
+        op = {"op": "tree", "ann": outer, "val": val}
+        return [op] if r.random() < 0.5 else [{"op": "ctx", "body": [op], "exit": "ret"}]
     if name == "ctx-object-reentered":
         # the program keeps one `ctx = jaxtyped("context")` object and enters it again while it is already entered
         inner = {"op": "ctx", "obj": "o1", "body": [arr(p_bad=0.0)], "exit": "ret" if r.random() < 0.6 else ["raise", "ValueError"]}
@@ -300,6 +308,14 @@ def gen_insertion(seed):
                         args.append(g.arr_val(aref, pref, p_bad=0.3, vt="np" if sp["atype"] == "np" else "duck"))
                 ops.append({"op": "call", "fn": fid, "args": args, "kw": 0, "body": [check()], "ret": None, "exit": "ret"})
             return ops
+        if x < 0.52:
+            # a bare, FAILING check of an annotation over axis names that the base history never uses, typed right into the live
+            # context (fails after binding something -> rollback path; wrong rank; fixed size; symbolic): it binds nothing, so
+            # neither the base verdicts nor what print_bindings() shows may change.  (A passing one would legitimately add its
+            # own names to the printed bindings -- an early version inserted those too and raised a false alarm on `obs`.)
+            dims, shape = r.choice((("zq zq", [2, 3]), ("zq zr", [2]), ("zq 4", [3, 5]), ("*zv zq zq", [2, 3, 4]), ("zq zq+1", [2, 2])))
+            za = g.add_ann({"k": "arr", "dtype": "Float", "atype": "np", "dims": dims, "toks": []})
+            return [{"op": "arr", "ann": za, "val": {"t": "np", "s": shape, "d": "float32"}}]
         if x < 0.6:
             return [{"op": "pickle", "ann": r.choice(pool_arr), "how": r.choice(("pickle", "copy", "deepcopy"))}]
         if x < 0.72:
